@@ -56,7 +56,7 @@ def plan(tier, seed):
     # systematic: every operation in every reachable state of a small
     # universe (vmon/explore.py); the families differ from C03's
     specs += explore.specs_for(ID, tier, seed, ['fs', 'QO'],
-                               ['fs', 'QO', 'OO', 'II', 'LF', 'UU', 'OL'])
+                               ['fs', 'QO', 'UU', 'OL'])
     return specs
 
 
